@@ -122,9 +122,23 @@ def sjoin_eq(ex, a, b):
         return False
     ia = [(c, v) for c, v in a.items]
     ib = [(c, v) for c, v in b.items]
-    if [v for _, v in ia] != [v for _, v in ib]:
-        # different candidate lists: equal iff both select the same concrete sequences; decided conservatively
-        raise Unsupported("comparison of conditional joins over different candidate lists")
+    va, vb = [v for _, v in ia], [v for _, v in ib]
+    if va != vb:
+        # different candidate lists: the joins are equal iff both select the same sequence of strings.  With pairwise
+        # distinct candidates in each list and the common ones in the same relative order that is: a common candidate
+        # is selected by both or by neither, a candidate of only one list is not selected
+        if (not all(isinstance(v, str) for v in va + vb) or len(set(va)) != len(va) or len(set(vb)) != len(vb)
+                or [v for v in va if v in set(vb)] != [v for v in vb if v in set(va)]):
+            raise Unsupported("comparison of conditional joins over different candidate lists")
+        ca = {v: (z3.BoolVal(True) if c is True else c) for c, v in ia}
+        cb = {v: (z3.BoolVal(True) if c is True else c) for c, v in ib}
+        conj = []
+        for v in va:
+            conj.append(ca[v] == cb[v] if v in cb else z3.Not(ca[v]))
+        for v in vb:
+            if v not in ca:
+                conj.append(z3.Not(cb[v]))
+        return z3.simplify(z3.And(*conj)) if conj else True
     conj = []
     for (c1, _), (c2, _) in zip(ia, ib):
         t1 = z3.BoolVal(True) if c1 is True else c1
@@ -372,6 +386,9 @@ def bytes_eq(ex, a, b):
 
 
 def contains(ex, container, item):
+    from .interp import _symkeyed, _MISSING
+    if isinstance(container, dict) and _symkeyed(container, item):
+        return ex.dict_find_key(container, item) is not _MISSING
     if isinstance(container, (tuple, list, set, frozenset, dict, range)) and isinstance(item, (SInt, SBool)):
         it = iterm(item)
         terms = []
@@ -601,7 +618,21 @@ def bytes_fromhex(ex, s):
     raise Unsupported(f"bytes.fromhex of {type(s).__name__}")
 
 
+def _sint_bit_length(ex, v):
+    """int.bit_length(): the number of bits of abs(v); decided by forking over the feasible values (<= 64 bits)"""
+    t = iterm(v)
+    a = z3.If(t >= 0, t, -t)
+    for k in range(0, 65):
+        lo = 0 if k == 0 else (1 << (k - 1))
+        hi = 1 << k
+        cond = (a == 0) if k == 0 else z3.And(a >= lo, a < hi)
+        if ex.branch(cond, tag="bit_length"):
+            return k
+    raise Unsupported("bit_length of an integer of more than 64 bits")
+
+
 SYM_METHODS = {
+    (SInt, "bit_length"): _sint_bit_length,
     (SBytes, "hex"): _sb_hex,
     (SBytes, "decode"): _sb_decode,
     (SBytes, "append"): _sb_append,
@@ -988,6 +1019,25 @@ def m_unpack(ex, fmt, data):
         word = iterm(SBytes([ASeg(data.segs[0].arr, data.segs[0].off, 4)] if (
             len(data.segs) == 1 and isinstance(data.segs[0], ASeg)) else data.segs)._from_bytes_n(ex, 4, False, "big"))
         return (SFloat(F_UNPACK(word)),)
+    if isinstance(data, SBytes) and isinstance(fmt, str) and fmt[:1] in "<>!" and re.fullmatch(r"[<>!](\d*[bBhHiIlLqQx])+", fmt):
+        # fixed-size integer fields in standard layout: the buffer must have exactly calcsize(fmt) bytes
+        total = struct.calcsize(fmt)
+        n = data.length()
+        if isinstance(n, int):
+            short = n != total
+        else:
+            short = ex.branch(zt(n) != total, tag="unpack.size")
+        if short:
+            raise PyRaise(struct.error(f"unpack requires a buffer of {total} bytes"))
+        order = "little" if fmt[0] == "<" else "big"
+        out, pos = [], 0
+        for cnt, code in re.findall(r"(\d*)([bBhHiIlLqQx])", fmt[1:]):
+            size = struct.calcsize(fmt[0] + code)
+            for _ in range(int(cnt) if cnt else 1):
+                if code != "x":
+                    out.append(int_from_bytes(ex, data.slice(ex, pos, pos + size), order, signed=code.islower()))
+                pos += size
+        return tuple(out)
     if is_sym(data):
         raise Unsupported("struct.unpack")
     try:
@@ -1001,6 +1051,10 @@ def m_bytesio(ex, data=b""):
 
 
 def m_dict_get(ex, d, key, default=None):
+    from .interp import _symkeyed, _MISSING
+    if isinstance(d, dict) and _symkeyed(d, key):
+        k = ex.dict_find_key(d, key)
+        return default if k is _MISSING else d[k]
     if isinstance(key, (SInt, SBool)):
         if all(isinstance(k, int) for k in d):
             return lookup_term(ex, d, key, default)
@@ -1086,6 +1140,24 @@ def dispatch_call(ex, fn, args, kw):
         return fn(*args, **kw)
     if getattr(fn, "_pyvc_model", False):
         return fn(*args, **kw)
+    if isinstance(selfobj, dict) and args and getattr(fn, "__name__", "") in (
+            "get", "pop", "setdefault", "__getitem__", "__contains__"):
+        # keys that are sequences with symbolic members (in the dict or as the argument) cannot go through python's
+        # hashing: resolve the key element-wise first
+        from .interp import _symkeyed, _MISSING
+        if _symkeyed(selfobj, args[0]):
+            k = ex.dict_find_key(selfobj, args[0])
+            name = fn.__name__
+            if name == "get":
+                return (args[1] if len(args) > 1 else kw.get("default")) if k is _MISSING else selfobj[k]
+            if name == "__contains__":
+                return k is not _MISSING
+            if name == "__getitem__":
+                if k is _MISSING:
+                    raise PyRaise(KeyError(args[0]))
+                return selfobj[k]
+            if k is not _MISSING:
+                args = [k] + list(args[1:])
     symbolic = _has_sym(args) or _has_sym(list(kw.values())) or isinstance(selfobj, Sym)
     # logging: argument expressions were evaluated, the effect is dropped
     if isinstance(selfobj, logging.Logger):
